@@ -125,9 +125,11 @@ template <bool NoneIsLeaf>
     switch (node.kind) {
         case PyTreeKind::Leaf: {
             node.arity = 0;
-            PyErr_WarnEx(PyExc_UserWarning,
-                         "PyTreeSpec::MakeFromCollection() is called on a leaf.",
-                         /*stack_level=*/2);
+            if (PyErr_WarnEx(PyExc_UserWarning,
+                             "PyTreeSpec::MakeFromCollection() is called on a leaf.",
+                             /*stack_level=*/2) < 0) [[unlikely]] {
+                throw py::error_already_set();
+            }
             break;
         }
 
